@@ -8,7 +8,7 @@ import uuid
 
 from .. import taps
 from .. import blobref, refdc, sdref
-from ..core import Ctx, MachineryError
+from ..core import SPEC, Ctx, MachineryError
 from ..gkdiref import kdf_parameters
 from ..tlc import require_ok, run_tlc
 from ..tracecheck import validate
@@ -91,7 +91,7 @@ def run(ctx: Ctx) -> int:
     require_ok(r, "Blob round trip over the configuration product")
     ctx.add_tlc(r, "Blob.tla: 4 hashes x 4 modes x 2 layouts x 2 flavours x 6 plaintext classes x 3 SID shapes x 7 clock classes: RoundTrip, NamesInterval, NoForgery")
     cfg = ctx.rundir / "emit.cfg"
-    cfg.write_text(open(ctx.rundir.parent.parent / "spec" / "MC_Blob_rt.cfg").read().replace("INVARIANT RoundTrip", "CONSTRAINT EmitRT\nINVARIANT RoundTrip"))
+    cfg.write_text(open(SPEC / "MC_Blob_rt.cfg").read().replace("INVARIANT RoundTrip", "CONSTRAINT EmitRT\nINVARIANT RoundTrip"))
     em = run_tlc("MC_Blob", str(cfg), rundir=ctx.rundir, workers=4, tag="emit")
     hists = em.cases("CASE")
     cfgs = [h[0][1] for h in hists if h and h[0][0] == "protect"]
